@@ -325,6 +325,7 @@ func (e *Engine) cmdCheck(prop, tier, evid, known, replayDir string, replay bool
 			kf.Seen = true
 			fmt.Printf("KNOWN-FINDING: property=%s %s (obligation %s, %s)\n", prop, kf.Text, ob.Name, ob.Status)
 			knownSeen = append(knownSeen, ob.Name)
+			nOb-- // a listed finding is reported, not claimed: it is counted neither as obligation nor as discharged
 			continue
 		}
 		nViol++
@@ -416,7 +417,7 @@ func (e *Engine) cmdCheck(prop, tier, evid, known, replayDir string, replay bool
 		assumptions = append(assumptions, "UNSUPPORTED (abstracted): "+u)
 	}
 	level := "proof"
-	if nDis < nOb-len(knownSeen) || len(e.toolErrors) > 0 {
+	if nDis < nOb || len(e.toolErrors) > 0 {
 		level = "other"
 	}
 	ev := evidence{PropertyID: prop, Tier: tier, Seed: seed, Level: level, WallS: round3(time.Since(t0).Seconds()), Violations: nViol,
